@@ -2,6 +2,8 @@ package main
 
 import (
 	"fmt"
+	"os"
+	"strings"
 
 	"golang.org/x/tools/go/ssa"
 )
@@ -51,6 +53,18 @@ func init() {
 				continue
 			}
 			fmt.Printf("SIG %s\t%s\n", FuncName(f), sigString(f))
+		}
+	})
+}
+
+// SSAF: developer aid printing the SSA of the functions whose name contains $MQTTCHECK_FN (after normalisation).
+func init() {
+	register("SSAF", "developer aid", func(r *Run) {
+		want := os.Getenv("MQTTCHECK_FN")
+		for _, f := range r.C.Funcs {
+			if want != "" && strings.Contains(FuncName(f), want) {
+				f.WriteTo(os.Stdout)
+			}
 		}
 	})
 }
